@@ -9,9 +9,13 @@ import RtVerif.Model.C05
 
   Model: composition of `path.Join` (GoPath), the template→key conversion (the regexp
   `{(.+?)}([^/]*)` replaced by `:$1`), one denco table per upper-cased method (the C05 model),
-  `path.Clean` of the escaped request path, `url.PathUnescape` of every captured value (the raw
-  value is kept when unescaping fails), the composite-segment workaround `decodeCompositParams`,
-  and the 404/405 decision of `NewRouter`.
+  `path.Clean` of the escaped request path, the composite-segment workaround
+  `decodeCompositParams` on the still escaped captured text (since the F01g repair),
+  `url.PathUnescape` of every captured value or fragment (the raw text is kept when unescaping
+  fails), and the 404/405 decision of `NewRouter`.
+
+  Spec: `instantiates`/`specDispatch` for descriptions whose templates are simple, and
+  `allInst`/`instAll`/`specDispatchC` for descriptions with composite segments (route and values).
 -/
 namespace RtVerif.C01
 open RtVerif Bytes
@@ -151,18 +155,21 @@ inductive Out where
   | panic
 deriving Repr, DecidableEq, BEq
 
-/-- the composite-segment test of `defaultRouter.Lookup` -/
+/-- `url.PathUnescape`, the raw text being kept when unescaping fails -/
+def decode (raw : Bytes) : Bytes := match GoURL.pathUnescape raw with | some u => u | none => raw
+
+/-- the composite-segment test of `defaultRouter.Lookup`.  Since the F01g repair the still escaped
+text captured by the trie is split along the pattern and every fragment is unescaped on its own. -/
 def paramsOf (pathPattern : Bytes) (name value : Bytes) : Option (List (Bytes × Bytes)) :=
-  let v := match GoURL.pathUnescape value with | some u => u | none => value
   let needle := lbrace :: name ++ [rbrace]
   match indexOf needle pathPattern with
-  | none => some [(name, v)]       -- not a placeholder of the template: used directly
+  | none => some [(name, decode value)]       -- not a placeholder of the template: used directly
   | some idx =>
     let x := idx + name.length + 2
     if x < pathPattern.length && pathPattern[x]? != some slash then
       let ep := (pathPattern.drop x).takeWhile (· != slash)
-      decodeComposite (ep.length + 2) name v ep
-    else some [(name, v)]
+      (decodeComposite (ep.length + 2) name value ep).map fun ps => ps.map fun kv => (kv.1, decode kv.2)
+    else some [(name, decode value)]
 
 def collectParams (pathPattern : Bytes) : List Bytes → List Bytes → Option (List (Bytes × Bytes))
   | n :: ns, v :: vs => do
@@ -241,8 +248,6 @@ def matchSegs : List TSeg → List Bytes → Option (List (Bytes × Bytes))
 def instantiates (tmpl path : Bytes) : Option (List (Bytes × Bytes)) :=
   matchSegs (tsegs tmpl) (GoPath.segs path)
 
-def decode (raw : Bytes) : Bytes := match GoURL.pathUnescape raw with | some u => u | none => raw
-
 /-- literal (0) / parameter (1) per segment: the preference order -/
 def segKinds (tmpl : Bytes) : List Nat := (tsegs tmpl).map fun t => match t with | .lit _ => 0 | _ => 1
 
@@ -288,6 +293,169 @@ def specDispatch (api : Api) (method escapedPath : Bytes) (out : Out) : Bool :=
     allow.all (fun m => (methodsOf api).contains m)
   | .panic => false
 
+/-! ## Spec for composite segments (from the property text)
+
+"The path-parameter values the handler receives are the percent-decoded texts that instantiate the
+placeholders, by name."  A template segment that mixes placeholders with other text is read as
+
+      pre {n0} st0 {n1} st1 … {nk} stk          (`pre`, `st_i` static text, possibly empty)
+
+and a (still escaped) path segment `t` *instantiates* it with the raw texts `v0 … vk` when
+
+      t = pre ++ v0 ++ st0 ++ v1 ++ st1 ++ … ++ vk ++ stk          (`renderVals`).
+
+Reading chosen (the least demanding faithful one): the property speaks of "the" texts that
+instantiate the placeholders.  Where exactly one list of texts does (`allInst … = [vs]`) the handler
+must receive exactly those, decoded.  Where several do (adjacent placeholders `{a}{b}`, a value that
+contains the following separator: `a-b-c` against `{x}-{y}`) the text does not single one out, and
+any instantiation is accepted — but the values must still be an instantiation: concatenated with
+the static texts they reproduce the segment.  Where none does, the template is not instantiated by
+the path and its handler must not run.  The static text is compared with the *escaped* path, like
+every other static text of a template (an escaped separator, `%2D` for `-`, belongs to a value). -/
+
+/-- all ways to write `t = v ++ sep ++ r`: the pairs `(v, r)`, leftmost occurrence first -/
+def splitsAt (sep : Bytes) : Bytes → List (Bytes × Bytes)
+  | [] => if sep.isEmpty then [([], [])] else []
+  | c :: t =>
+    (if sep.isPrefixOf (c :: t) then [([], (c :: t).drop sep.length)] else []) ++
+      (splitsAt sep t).map fun vr => (c :: vr.1, vr.2)
+
+/-- the segment text (after `pre`) that the values make of the placeholders `(name, static text after it)` -/
+def renderVals : List (Bytes × Bytes) → List Bytes → Option Bytes
+  | [], [] => some []
+  | (_, st) :: r, v :: vs => (renderVals r vs).map fun rest => v ++ st ++ rest
+  | _, _ => none
+
+/-- every list of raw texts that instantiates the placeholders: `vs ∈ allInst phs t ↔ renderVals phs vs = some t`
+(theorem `mem_allInst`) -/
+def allInst : List (Bytes × Bytes) → Bytes → List (List Bytes)
+  | [], t => if t.isEmpty then [[]] else []
+  | (_, st) :: r, t => (splitsAt st t).flatMap fun vr => (allInst r vr.2).map fun vs => vr.1 :: vs
+
+structure CSeg where
+  pre : Bytes
+  phs : List (Bytes × Bytes)    -- (placeholder name, static text that follows it)
+deriving Repr, DecidableEq
+
+def notBrace (c : UInt8) : Bool := c != lbrace && c != rbrace
+
+/-- `{name}` at the head of `s`: the name (non-empty, brace-free) and what follows `}` -/
+def takeName (s : Bytes) : Option (Bytes × Bytes) :=
+  match s with
+  | c :: r =>
+    if c == lbrace then
+      match r.dropWhile notBrace with
+      | d :: r' => if d == rbrace && !(r.takeWhile notBrace).isEmpty then some (r.takeWhile notBrace, r') else none
+      | [] => none
+    else none
+  | [] => none
+
+/-- `{n0} st0 {n1} st1 …` (fuel: the length of the text) -/
+def parsePhs : Nat → Bytes → Option (List (Bytes × Bytes))
+  | 0, _ => none
+  | f + 1, s =>
+    match s with
+    | [] => some []
+    | _ :: _ =>
+      match takeName s with
+      | none => none
+      | some (nm, r) => (parsePhs f (r.dropWhile notBrace)).map fun phs => (nm, r.takeWhile notBrace) :: phs
+
+def parseCSeg (seg : Bytes) : Option CSeg :=
+  (parsePhs (seg.length + 1) (seg.dropWhile notBrace)).map fun phs => ⟨seg.takeWhile notBrace, phs⟩
+
+/-- a template segment for the composite-aware Spec -/
+inductive XSeg where
+  | lit (b : Bytes)
+  | ph (name : Bytes)
+  | comp (c : CSeg)
+  | bad                   -- braces that do not pair up into `{name}` placeholders: not judged
+deriving Repr, DecidableEq
+
+def xclassify (seg : Bytes) : XSeg :=
+  match classify seg with
+  | .lit b => .lit b
+  | .ph n => .ph n
+  | .composite =>
+    match parseCSeg seg with
+    | some c => if c.phs.isEmpty then .bad else .comp c
+    | none => .bad
+
+def xsegs (tmpl : Bytes) : List XSeg := (GoPath.segs tmpl).map xclassify
+
+def wellFormedT (tmpl : Bytes) : Bool := (xsegs tmpl).all fun x => x != .bad
+
+/-- the raw instantiations of one composite segment by one path segment, by name -/
+def instSeg (c : CSeg) (p : Bytes) : List (List (Bytes × Bytes)) :=
+  if c.pre.isPrefixOf p then (allInst c.phs (p.drop c.pre.length)).map fun vs => (c.phs.map (·.1)).zip vs
+  else []
+
+/-- every way the (cleaned, still escaped) path instantiates the template, with the raw texts by name -/
+def instAllSegs : List XSeg → List Bytes → List (List (Bytes × Bytes))
+  | [], [] => [[]]
+  | .lit b :: ts, p :: ps => if b == p then instAllSegs ts ps else []
+  | .ph n :: ts, p :: ps => (instAllSegs ts ps).map fun r => (n, p) :: r
+  | .comp c :: ts, p :: ps => (instSeg c p).flatMap fun a => (instAllSegs ts ps).map fun r => a ++ r
+  | _, _ => []
+
+def instAll (tmpl path : Bytes) : List (List (Bytes × Bytes)) := instAllSegs (xsegs tmpl) (GoPath.segs path)
+
+def fitsLooseC (tmpl path : Bytes) : Bool := !(instAll tmpl path).isEmpty
+
+/-- fits with every parameter text non-empty -/
+def fitsStrictC (tmpl path : Bytes) : Bool :=
+  (instAll tmpl path).any fun raws => raws.all fun kv => !kv.2.isEmpty
+
+/-- static segment (0) / composite segment that begins with static text, `v{n}` (1) / parameter at the
+start of the segment, `{n}`, `{a}-{b}` (2) -/
+def segKindsC (tmpl : Bytes) : List Nat :=
+  (xsegs tmpl).map fun x => match x with
+    | .lit _ => 0
+    | .comp c => if c.pre.isEmpty then 2 else 1
+    | _ => 2
+
+/-- "a literal segment is preferred to a parameter when both fit": the chosen template (left) is not
+beaten by another fitting one (right).  The first segment where the two differ in kind decides; a
+static segment beats everything else.  Between `v{n}` and `{n}` the property states no preference
+(neither is a literal segment): either choice is accepted. -/
+def prefOk : List Nat → List Nat → Bool
+  | [], _ => true
+  | _ :: _, [] => false
+  | a :: as, b :: bs =>
+    if a == b then prefOk as bs
+    else if a == 0 then true
+    else if b == 0 then false
+    else true
+
+/-- what the property demands of one dispatch, composite segments included -/
+def specDispatchC (api : Api) (method escapedPath : Bytes) (out : Out) : Bool :=
+  let mn := toUpper method
+  let cleaned := GoPath.clean escapedPath
+  match out with
+  | .ran i ps =>
+    match api.ops[i]? with
+    | none => false
+    | some op =>
+      toUpper op.method == mn &&
+      -- the values are the decoded texts of an instantiation (of THE instantiation when it is unique)
+      (instAll (fullPath api op) cleaned).any (fun raws => ps == raws.map (fun kv => (kv.1, decode kv.2))) &&
+      (opsUnder api mn).all (fun (op', _) =>
+        !fitsStrictC (fullPath api op') cleaned ||
+          prefOk (segKindsC (fullPath api op)) (segKindsC (fullPath api op')))
+  | .notFound =>
+    api.ops.all fun op => !fitsStrictC (fullPath api op) cleaned
+  | .notAllowed allow =>
+    (opsUnder api mn).all (fun (op, _) => !fitsStrictC (fullPath api op) cleaned) &&
+    !allow.isEmpty &&
+    (methodsOf api).all (fun m =>
+      if m == mn then !allow.contains m
+      else
+        let strict := (opsUnder api m).any fun (op, _) => fitsStrictC (fullPath api op) cleaned
+        let loose := (opsUnder api m).any fun (op, _) => fitsLooseC (fullPath api op) cleaned
+        (!strict || allow.contains m) && (!allow.contains m || loose)) &&
+    allow.all (fun m => (methodsOf api).contains m)
+  | .panic => false
+
 /-! ### classes outside the simple-template theorems -/
 
 def hasComposite (api : Api) : Bool := api.ops.any fun op => !isSimple (fullPath api op)
@@ -300,6 +468,36 @@ def oddStatic (api : Api) : Bool :=
       (tsegs fp).any fun t => match t with
         | .lit b => b.contains colon || b.contains 42
         | _ => false
+
+/-- does the template have a placeholder at all? -/
+def hasPlaceholder (tmpl : Bytes) : Bool := (tsegs tmpl).any fun t => match t with | .lit _ => false | _ => true
+
+/-- F01h: a template with placeholders whose converted key the trie router files as *static* text
+(no `/:`, `/*`, `=:` in it): every placeholder sits behind static text of its segment, e.g.
+`/v{major}.{minor}` → `/v:major`.  Such a template is matched by the literal key only.  The class
+is per request: the cleaned path fits the template, or it is the literal key. -/
+def staticComposite (api : Api) (cleaned : Bytes) : Bool :=
+  api.ops.any fun op =>
+    let fp := fullPath api op
+    hasPlaceholder fp && !C05.isParamKey (convert fp) && (fitsLooseC fp cleaned || convert fp == cleaned)
+
+/-- some composite segment of the template has no instantiation by the path segment at its place -/
+def misfitSegs : List XSeg → List Bytes → Bool
+  | .comp c :: ts, p :: ps => (instSeg c p).isEmpty || misfitSegs ts ps
+  | _ :: ts, _ :: ps => misfitSegs ts ps
+  | _, _ => false
+
+/-- F01i: under some method the trie picks a template one of whose composite segments is not
+instantiated by the path segment (the trie keeps `{a}` of `{a}.json`, `{a}-{b}` only); the handler
+runs / the method is listed in Allow all the same, the values being empty. -/
+def compositeMisfit (api : Api) (cleaned : Bytes) : Bool :=
+  (methodsOf api).any fun m =>
+    match lookupUnder api m cleaned with
+    | some (.found v _ _) =>
+      (match api.ops[v]? with
+       | some op => misfitSegs (xsegs (fullPath api op)) (GoPath.segs cleaned)
+       | none => false)
+    | _ => false
 
 def dupKeys (api : Api) : Bool :=
   (methodsOf api).any fun m =>
@@ -355,13 +553,36 @@ def run (ins outs : List String) : Verdict :=
           -- answers is not modelled (F01b, documented: such descriptions are outside the quantifier)
           { agree := true, specOk := true, tag := "~build-refused:" ++ kind, model := renderOut mo }
         else if hasComposite api then
-          -- composite segments: the choice of route is judged, the splitting of values is not
-          let okRoute := match o with
-            | .ran i _ => (match api.ops[i]? with | some op => toUpper op.method == toUpper m | none => false)
-            | .panic => false
-            | _ => true
-          { agree := mo == o, specOk := okRoute, known := (if oddStatic api then "F01c" else "-"),
-            tag := "composite:" ++ kind, model := renderOut mo }
+          if !(api.ops.all fun op => wellFormedT (fullPath api op)) then
+            -- braces that do not pair up into placeholders: only the choice of route is judged
+            let okRoute := match o with
+              | .ran i _ => (match api.ops[i]? with | some op => toUpper op.method == toUpper m | none => false)
+              | .panic => false
+              | _ => true
+            { agree := mo == o, specOk := okRoute, known := (if oddStatic api then "F01c" else "-"),
+              tag := "composite-odd:" ++ kind, model := renderOut mo }
+          else
+          -- composite segments: route AND values are judged (`specDispatchC`)
+          let cleaned := GoPath.clean p
+          let vtag := match o with
+            | .ran i _ =>
+              (match api.ops[i]? with
+               | some op =>
+                 if isSimple (fullPath api op) then ""
+                 else match (instAll (fullPath api op) cleaned).length with
+                   | 0 => ":none" | 1 => ":unique" | _ => ":ambiguous"
+               | none => "")
+            | _ => ""
+          -- a recorded finding explains a verdict only where the code does what the model of the
+          -- finding says (a panic, or any other answer, inside a known class is still reported)
+          let known :=
+            if mo != o then "-"
+            else if oddStatic api then "F01c"
+            else if staticComposite api cleaned then "F01h"
+            else if compositeMisfit api cleaned then "F01i"
+            else "-"
+          { agree := mo == o, specOk := specDispatchC api m p o, known := known,
+            tag := "composite:" ++ kind ++ vtag, model := renderOut mo }
         else
           { agree := mo == o, specOk := specDispatch api m p o,
             known := (if oddStatic api then "F01c" else "-"), tag := kind, model := renderOut mo }
